@@ -180,6 +180,71 @@ def run(ctx):
         report.nontriv("mut:" + nm)
         if touched != {"z_flags"}:
             viol(report, "C08-R5", b.qname, "%s writes %s; only the flag bits (z_flags) may change" % (b.qname, sorted(touched)))
+    # ---- R5b: what set_flags / remove_flags compute: z_flags | flags, and z_flags with the bits of `flags` cleared (operand order!)
+    for nm in ("set_flags", "remove_flags"):
+        b = B[nm]
+        defs = mu.defs_of(b)
+
+        def role(op, depth=0):
+            """'self' for (a copy of / reference to) self.z_flags, 'param' for the flags argument, ('not', role) for its complement"""
+            if op is None or op.get("o") not in ("copy", "move") or depth > 6:
+                return None
+            pl = op["pl"]
+            if any(isinstance(p, dict) and p.get("n") == "z_flags" for p in pl["p"]) and pl["l"] == 1:
+                return "self"
+            if pl["l"] == 2 and not pl["p"]:
+                return "param"
+            d = mu.single_def(defs, pl["l"])
+            if d is None:
+                return None
+            if d[1] == "term":
+                cal = d[2]["callee"]["def"] if d[2]["callee"] else ""
+                if cal.endswith("::complement") or cal.endswith("as std::ops::Not>::not"):
+                    r = role(d[2]["args"][0], depth + 1)
+                    return ("not", r) if r else None
+                return None
+            rv = d[2]
+            if rv.get("k") == "ref":
+                return role({"o": "copy", "pl": rv["pl"]}, depth + 1)
+            if rv.get("k") in ("use", "cast"):
+                return role(rv["op"], depth + 1)
+            if rv.get("k") == "un" and rv.get("op") == "Not":
+                r = role(rv["a"], depth + 1)
+                return ("not", r) if r else None
+            return None
+        ops = []
+        for bi, t in mu.calls(b, r"PacketFlag"):
+            name = t["callee"]["name"]
+            roles = [role(a) for a in t["args"]]
+            ops.append((name, roles, t))
+        report.count()
+        okf = False
+        why = "no bitflags operation on self.z_flags found"
+        if len(ops) == 1:
+            name, roles, t = ops[0]
+            in_place = roles[:1] == ["self"] and mu.resolve_loc(b, defs, t["dest"]) != (1, ())
+            if nm == "set_flags":
+                okf = (name in ("bitor_assign", "insert") and roles == ["self", "param"]) or \
+                      (name in ("bitor", "union") and sorted(map(str, roles)) == ["param", "self"])
+            else:
+                okf = (name in ("remove", "sub_assign") and roles == ["self", "param"]) or \
+                      (name in ("difference", "sub") and roles == ["self", "param"]) or \
+                      (name in ("bitand_assign", "bitand", "intersection") and
+                       (roles == ["self", ("not", "param")] or roles == [("not", "param"), "self"]))
+            why = "%s(%s)" % (name, ", ".join(str(r) for r in roles))
+        elif len(ops) > 1:
+            # e.g. `self.z_flags & flags.complement()` : two operations, the last one combines
+            name, roles, t = ops[-1]
+            if nm == "remove_flags":
+                okf = name in ("bitand_assign", "bitand", "intersection") and (roles == ["self", ("not", "param")] or roles == [("not", "param"), "self"])
+            else:
+                okf = name in ("bitor_assign", "bitor", "union", "insert") and sorted(map(str, roles)) == ["param", "self"]
+            why = "%s(%s)" % (name, ", ".join(str(r) for r in roles))
+        if okf:
+            report.nontriv("flag-op:" + nm)
+        else:
+            viol(report, "C08-R5", b.qname, "%s computes %s; required: %s" % (
+                b.qname, why, "self.z_flags | flags" if nm == "set_flags" else "self.z_flags with the bits of `flags` cleared (z_flags - flags)"))
     report.assumptions += ["bitflags' from_bits_truncate / bits / contains follow their documented contract (modelled)",
                            "slice indexing, get, try_into and from_be_bytes are modelled by their std contracts"]
     return report.finish()
